@@ -1,6 +1,7 @@
 import EudoxiaModel.Model.Exec
 import EudoxiaModel.Model.Dag
 import EudoxiaModel.Model.Profile
+import EudoxiaModel.Model.Trace
 import Driver.Json
 /-! Line-protocol driver: one command per input line, one JSON observation per output line. -/
 open Eudoxia
@@ -10,6 +11,10 @@ structure DS where
   pendSusp : List (Nat × Nat) := []
   pendAsg : List Asg := []
   dead : Bool := false
+
+def parseFracs (s : String) : List (Nat × Nat) :=
+  if s == "-" then [] else (s.splitOn ",").map (fun t => match t.splitOn "/" with
+    | [a, b] => (a.toNat!, b.toNat!) | [a] => (a.toNat!, 1) | _ => (0, 1))
 
 def parseList (s : String) : List Nat :=
   if s == "-" then [] else (s.splitOn ",").map String.toNat!
@@ -112,6 +117,16 @@ def step (d : DS) (line : String) : DS × String :=
     (d, match sg.cpuTicks? d.w.cfg cpus.toNat! with
         | some k => "{\"ok\":true,\"ticks\":" ++ toString k ++ "}"
         | none => "{\"ok\":true,\"ticks\":null}")
+  | ["deliver", tps, fr] =>
+    (d, "{\"ok\":true,\"ticks\":" ++ jarr ((parseFracs fr).map (fun x => toString (Trace.deliverTick x.1 x.2 tps.toNat!))) ++ "}")
+  | ["replay", tps, nticks, fr] =>
+    let ticks := (parseFracs fr).map (fun x => Trace.deliverTick x.1 x.2 tps.toNat!)
+    (d, "{\"ok\":true,\"ticks\":" ++ jarr (ticks.map toString) ++ ",\"out\":" ++
+        jarr ((Trace.replayIdx ticks nticks.toNat!).map (fun l => jarr (l.map toString))) ++ "}")
+  | ["snap", tps, fr] =>
+    (d, "{\"ok\":true,\"num\":" ++ jarr ((parseFracs fr).map (fun x => toString (Trace.snapNum x.1 x.2 tps.toNat!))) ++ "}")
+  | ["jitter", arr, draws] =>
+    (d, "{\"ok\":true,\"order\":" ++ jarr ((Trace.jitter (parseList arr) (parseList draws)).map (fun x => jarr [toString x.1, toString x.2])) ++ "}")
   | ["reset"] => ({}, "{\"ok\":true}")
   | "check" :: which :: rest =>
     let text := " ".intercalate rest
